@@ -1495,6 +1495,12 @@ impl Service {
             return;
         }
 
+        // Ignore sessions with ENRs that the configured table filter excludes from the routing
+        // table, as for discovered and manually added ENRs.
+        if !(self.config.table_filter)(&enr) {
+            return;
+        }
+
         let node_id = enr.node_id();
 
         // We never update connection direction if a node already exists in the routing table as we
